@@ -149,6 +149,66 @@ for _ in range(3000):
     mkp = lambda: mk_policy(hk_sizes={'rsa-sha2-512': {'hostkey_size': e}}, dh={'g': e}, larger=True)
     if mkp().evaluate(banner, kex)[0] and not mkp().evaluate(banner, kex2)[0]:
         fail({'expected': e, 'actual': a, 'grown': a + d}, 'fail', 'still passes', 'monotone-larger')
+# 5. a policy file written with the deprecated per-key directives is enforced like the equivalent new-style policy
+GEXN = 'diffie-hellman-group-exchange-sha256'
+OLD = """name = "Old style"
+version = 1
+hostkey_size_rsa-sha2-512 = 3072
+hostkey_size_ssh-rsa-cert-v01@openssh.com = 3072
+cakey_size_ssh-rsa-cert-v01@openssh.com = 4096
+dh_modulus_size_%%s = 3072
+host keys = rsa-sha2-512, ssh-rsa-cert-v01@openssh.com
+key exchanges = %%s
+ciphers = a
+macs = a
+""" %% (GEXN, GEXN)
+import io
+for larger in (False, True):
+    text = OLD + ('allow_larger_keys = true\n' if larger else '')
+    for hs, cs, ds in itertools.product((2048, 3072, 4096), (2048, 4096, 8192), (2048, 3072, 4096)):
+        cases += 1
+        try:
+            p = Policy(policy_data=text)
+            p._warning_target = io.StringIO()
+        except Exception as e:
+            fail({'policy': 'deprecated directives'}, repr(e), 'the policy loads', 'deprecated-load'); break
+        kex = H.make_kex([GEXN], ['rsa-sha2-512', 'ssh-rsa-cert-v01@openssh.com'], ['a'], ['a'])
+        kex.set_host_key('rsa-sha2-512', b'', hs, '', 0)
+        kex.set_host_key('ssh-rsa-cert-v01@openssh.com', b'', hs, 'ssh-rsa', cs)
+        kex.set_dh_modulus_size(GEXN, ds)
+        ok, errs, txt = p.evaluate(banner, kex)
+        got = sorted(e['mismatched_field'] for e in errs)
+        want = []
+        if not size_ok(larger, 3072, hs): want += ['Host key (rsa-sha2-512) sizes', 'Host key (ssh-rsa-cert-v01@openssh.com) sizes']
+        if not size_ok(larger, 4096, cs): want += ['CA signature size (ssh-rsa)']
+        if not size_ok(larger, 3072, ds): want += ['Group exchange (%%s) modulus sizes' %% GEXN]
+        if got != sorted(want) or ok != (not want):
+            fail({'policy': 'deprecated directives', 'larger': larger, 'peer sizes (host, CA, modulus)': [hs, cs, ds]}, {'passed': ok, 'errors': got}, {'errors': sorted(want)}, 'deprecated-directives')
+# 6. one policy, several targets: each target's verdict and error list are its own (a failing target leaves nothing behind for the next)
+sys.path.insert(0, %(native)r)
+import fakenet as F, os, tempfile
+from ssh_audit.builtin_policies import BUILTIN_POLICIES
+pol = 'Hardened OpenSSH Server v9.9 (version 1)'
+bp = BUILTIN_POLICIES[pol]
+good = F.kexinit(bp['kex'], bp['host_keys'], bp['ciphers'], bp['macs'])
+bad = F.kexinit(bp['kex'] + ['diffie-hellman-group1-sha1'], bp['host_keys'], bp['ciphers'], bp['macs'])
+for order in (['bad.test', 'good.test'], ['bad.test', 'bad2.test', 'good.test']):
+    cases += 1
+    f = tempfile.NamedTemporaryFile('w', suffix='.txt', delete=False); f.write(''.join(h + '\n' for h in order)); f.close()
+    try:
+        net = F.FakeNet({h: F.Peer('healthy', kex=(good if h.startswith('good') else bad)) for h in order})
+        st, out = F.run_main(['-n', '-j', '--skip-rate-test', '-P', pol, '-T', f.name, '--threads', '1'], net)
+    finally:
+        os.unlink(f.name)
+    try:
+        arr = json.loads(out)
+        for h in order:
+            el = [e for e in arr if e.get('host') == h][0]
+            wantp = h.startswith('good')
+            if el['passed'] != wantp or len(el['errors']) != (0 if wantp else 1):
+                fail({'policy targets': order, 'host': h}, {'passed': el['passed'], 'errors': len(el['errors'])}, {'passed': wantp, 'errors': 0 if wantp else 1}, 'verdict-leaks-between-targets')
+    except Exception as e:
+        fail({'policy targets': order}, repr(e) + out[:200], 'a JSON array with one verdict per target', 'multi-target-json')
 print(json.dumps({'cases': cases, 'failures': failures}))
 '''
 
@@ -239,6 +299,35 @@ for pi, p in enumerate(peers):
         ok, errs, text = pol.evaluate(banner, build(q))
         if ok or fld not in fields(errs):
             fail(dict(inp, perturbation=name), {'passed': ok, 'errors': fields(errs)}, {'passed': False, 'error names': fld}, 'drift')
+# the peer as parsed from the wire (SSH2_Kex.parse of a KEXINIT payload): repeated names and empty name-lists are part of what the peer sent
+sys.path.insert(0, %(native)r)
+import fakenet as F
+from ssh_audit.ssh2_kex import SSH2_Kex
+from ssh_audit.outputbuffer import OutputBuffer
+def wire(kx, ky, en, mc):
+    return SSH2_Kex.parse(OutputBuffer(), F.kexinit(kx, ky, en, mc)[1:])
+WIRE = [dict(kex=['a', 'b', 'c'], key=['h'], enc=['c1', 'c2'], mac=['m1']),
+        dict(kex=['curve25519-sha256'], key=['ssh-ed25519'], enc=['aes256-gcm@openssh.com'], mac=[]),          # AEAD-only peer: empty MAC list
+        dict(kex=['k'], key=['h'], enc=[], mac=['m'])]
+for wi, p in enumerate(WIRE):
+    cases += 1
+    inp = {'wire peer': wi}
+    try:
+        data = Policy.create('src', banner, wire(p['kex'], p['key'], p['enc'], p['mac']), False)
+        ok, errs, text = Policy(policy_data=data).evaluate(banner, wire(p['kex'], p['key'], p['enc'], p['mac']))
+    except Exception as e:
+        fail(inp, 'exception %%r' %% (e,), 'the generated policy loads and evaluates', 'wire-load'); continue
+    if not ok or errs:
+        fail(dict(inp, lists=p), {'passed': ok, 'errors': fields(errs)}, 'passes with no errors on the same peer', 'wire-self-pass')
+    for cat, fld in (('kex', 'Key exchanges'), ('key', 'Host keys'), ('enc', 'Ciphers'), ('mac', 'MACs')):
+        if not p[cat]:
+            continue
+        for name, l2 in (('repeat-first', p[cat] + [p[cat][0]]), ('repeat-last-in-front', [p[cat][-1]] + p[cat])):
+            cases += 1
+            q = dict(p, **{cat: l2})
+            ok, errs, text = Policy(policy_data=data).evaluate(banner, wire(q['kex'], q['key'], q['enc'], q['mac']))
+            if ok or fld not in fields(errs):
+                fail(dict(inp, perturbation=name + ' ' + cat, lists=q[cat]), {'passed': ok, 'errors': fields(errs)}, {'passed': False, 'error names': fld}, 'wire-drift-repeated-name')
 # every built-in policy is passed by a peer configured exactly as it lists
 for name, b in BUILTIN_POLICIES.items():
     cases += 1
